@@ -67,7 +67,7 @@ def expected(topo, built, compact, declared=(), more_out=False):
             for el, var, size in groups[g]:
                 ins.append((f"{var}_{el}", znames(topo, el, var, size)))
         for p in declared:
-            ins.append((p, [p]))
+            ins.append((p, [p]) if isinstance(p, str) else (p[0], list(p[1])))  # (name, [symbols]) = one declared vector
         for el, var, size in nexts:
             outs.append((f"{var}_{el}+", [("next", el, var, i) for i in range(size)]))
     else:
@@ -92,7 +92,7 @@ def expected(topo, built, compact, declared=(), more_out=False):
                 ins.append((g, [z for _, zs in byname[g] for z in zs]))
             outs.append(("x+", [o for _, os_ in obyname for o in os_]))
         if declared:
-            ins.append(("p", list(declared)))
+            ins.append(("p", [z for p in declared for z in ([p] if isinstance(p, str) else p[1])]))
     if more_out:
         links = [el for el in order if _kind(topo, el)[0] == "link"]
         origins = [el for el in order if _kind(topo, el)[0] == "origin"]
